@@ -38,12 +38,18 @@ def run(tier, replay=None):
 
     # histories
     sd = vlib.sub("sc")
-    names = ["vote_window_edges", "slash_then_unstake"] if quick else ["vote_window_edges", "slash_then_unstake", "many_unbonding", "validator_churn", "price_change", "forced_unbond", "twin_jail"]
-    vlib.driver_json(["directed", "-out", os.path.join(vlib.scratch(), "d.ndjson"), "-tmp", tmp, "-seed", vlib.seed(), "-scenarios", sd, "-names", ",".join(names)])
-    if not quick:
-        vlib.driver_json(["random", "-out", os.path.join(vlib.scratch(), "r.ndjson"), "-tmp", tmp, "-seed", vlib.seed() * 31 + 3, "-n", 9, "-blocks", 22, "-maxtx", 4, "-scenarios", sd])
+    if replay:
+        rp = json.load(open(replay))
+        json.dump(rp["scenario"], open(os.path.join(sd, rp.get("scenario_file", "replay.json")), "w"))
+        window = (rp["block"], rp["block"])
+    else:
+        names = ["vote_window_edges", "slash_then_unstake", "evm_quiet_blocks"] if quick else \
+            ["vote_window_edges", "slash_then_unstake", "evm_quiet_blocks", "many_unbonding", "validator_churn", "price_change", "forced_unbond", "twin_jail", "evm_mixed"]
+        vlib.driver_json(["directed", "-out", os.path.join(vlib.scratch(), "d.ndjson"), "-tmp", tmp, "-seed", vlib.seed(), "-scenarios", sd, "-names", ",".join(names)])
+        if not quick:
+            vlib.driver_json(["random", "-out", os.path.join(vlib.scratch(), "r.ndjson"), "-tmp", tmp, "-seed", vlib.seed() * 31 + 3, "-n", 9, "-blocks", 22, "-maxtx", 4, "-scenarios", sd])
+        window = (9, 10) if quick else (2, 21)
     files = sorted(os.listdir(sd))
-    window = (9, 10) if quick else (2, 21)
     groups = []
     for i, f in enumerate(files):
         g = vlib.sub("shard-%d" % i)
@@ -80,13 +86,15 @@ def run(tier, replay=None):
                 for what in b["what"]:
                     os.makedirs(vlib.REPLAYS, exist_ok=True)
                     path = os.path.join(vlib.REPLAYS, "C08-seed%d-%s-block%d-%s.json" % (vlib.seed(), os.path.basename(g), b["block"], b["point"].replace(":", "_").replace("#", "_")))
-                    json.dump({"scenario_dir": g, "block": b["block"], "crash_point": b["point"], "what": what}, open(path, "w"), indent=1)
+                    scf = sorted(os.listdir(g))[0]
+                    json.dump({"scenario_file": scf, "scenario": json.load(open(os.path.join(g, scf))), "block": b["block"], "crash_point": b["point"],
+                               "what": what}, open(path, "w"))
                     v.violation("%s [block %d, process death at %s]" % (what, b["block"], b["point"]),
                                 {"clause": what, "point": b["point"], "site": b["site"], "ordinal": b["ordinal"], "info": b["info"]}, replay=path)
             for d in diffs:
                 v.diff("Durability.tla (as built) predicts %s at %s, the code %s" % ("recovery" if d["predicted"] else "a bricked node", d["point"],
                                                                                      "recovered" if d["recovered"] else "did not recover"))
-    if total["crash_points"] < 20 and not v.violations:
+    if not replay and total["crash_points"] < 20 and not v.violations:
         raise vlib.MachineryError("only %d crash points were taken" % total["crash_points"])
     if sorted(observed_bricks) != [b for b in model_bricks if tuple(b) in observed_bricks | observed_ok]:
         v.diff("set of bricking crash points: model %s, code %s" % (model_bricks, sorted(observed_bricks)))
